@@ -51,7 +51,9 @@ ASSUMPTIONS = ["mono recordings, sample widths 1, 2, 4, frame rate a positive in
                "at (or within one binary64 rounding error of) an exact half-sample point the oracle accepts either neighbouring "
                "sample index, consistently for every use of the same time",
                "splitAudioOnTier: labels are file-name safe, non-empty, stripped; the TextGrid spans [0, duration of the wav]; "
-               "a keep list of [] is read as 'keep nothing', None as 'no list given'"]
+               "a keep list of [] is read as 'keep nothing', None as 'no list given'",
+               "the span of a written TextGrid is compared up to the writer's snapping of numbers within 1e-14 (relative) of an "
+               "integer (numToStr; C02/C04); such cases are oracle-only"]
 
 WIDTHS = [1, 2, 4]
 RATES = [8, 10, 100, 8000, 44100]
@@ -221,7 +223,18 @@ def has_model(c):
         if not all(time_ok(e[0], c["rate"]) and time_ok(e[1], c["rate"]) for e in es):
             return False
         names = [out_name(c, i, e[2], len(es)) for i, e in enumerate(es)]
-        return len(set(names)) == len(names)     # overwritten files: oracle only
+        if len(set(names)) != len(names):         # overwritten files: oracle only
+            return False
+        if c["tgflag"] is not False:
+            # the cropped TextGrid is observed after save + open: a rebased time within 1e-14 (relative) of an integer is
+            # written as that integer (numToStr, the subject of C02/C04), so it no longer equals the crop's value
+            xs = [x for t in c["tg"]["tiers"] for en in t["es"] for x in en[:-1]]
+            for e in es:
+                for x in xs + [e[1]]:
+                    d = x - e[0]
+                    if d != round(d) and abs(d - round(d)) <= 2e-14 * max(abs(d), 1.0):
+                        return False
+        return True
     raise KeyError(op)
 
 
@@ -468,29 +481,31 @@ def wf_list(l):
 
 def match_pieces(result, pieces, S, w, rate, gen_check):
     """does `result` (bytes) consist of the given pieces in order?  pieces: ("keep", s, e) | ("gen", s, e) with exact
-    Fraction times; a time at a half-sample tie may resolve to either neighbour, the same one everywhere"""
+    Fraction times; a time at a half-sample tie may resolve to either neighbour, the same one everywhere (assigned at
+    its first use, with backtracking).  Returns None when the search budget is exhausted (no verdict)."""
     times = sorted({t for p in pieces if p[0] == "keep" for t in p[1:]})
     cands = {t: nearest_x(t * rate) for t in times}
-    multi = [t for t in times if len(cands[t]) > 1][:8]
-
-    def assignments(i, cur):
-        if i == len(multi):
-            yield cur
-            return
-        for k in cands[multi[i]]:
-            cur[multi[i]] = k
-            yield from assignments(i + 1, cur)
+    budget = [200000]
 
     def dfs(pi, pos, idx):
+        budget[0] -= 1
+        if budget[0] < 0:
+            raise TimeoutError
         if pi == len(pieces):
             return pos == len(result)
         kind, s, e = pieces[pi]
         if kind == "keep":
-            a, b = idx[s], idx[e]
-            if not (0 <= a <= b <= len(S)):
-                return False
-            chunk = enc_samples(S[a:b], w)
-            return result[pos:pos + len(chunk)] == chunk and dfs(pi + 1, pos + len(chunk), idx)
+            for a in ([idx[s]] if s in idx else cands[s]):
+                for b in ([idx[e]] if e in idx else cands[e]):
+                    if not (0 <= a <= b <= len(S)):
+                        continue
+                    chunk = enc_samples(S[a:b], w)
+                    if result[pos:pos + len(chunk)] == chunk:
+                        idx2 = dict(idx)
+                        idx2[s], idx2[e] = a, b
+                        if dfs(pi + 1, pos + len(chunk), idx2):
+                            return True
+            return False
         for cnt in nearest_x((e - s) * rate):
             if cnt < 0:
                 continue
@@ -499,11 +514,10 @@ def match_pieces(result, pieces, S, w, rate, gen_check):
                 return True
         return False
 
-    base = {t: cands[t][0] for t in times}
-    for a in assignments(0, dict(base)):
-        if dfs(0, 0, dict(a)):
-            return True
-    return False
+    try:
+        return dfs(0, 0, {})
+    except TimeoutError:
+        return None
 
 
 def oracle_times(c, r):
@@ -562,7 +576,7 @@ def oracle_times(c, r):
     else:
         gen_check = lambda chunk, cnt: chunk == bytes(len(chunk))
     empty_keep = mode == "keep" and not l
-    if not match_pieces(res, pieces, S, w, rate, gen_check):
+    if match_pieces(res, pieces, S, w, rate, gen_check) is False:
         got = decode(res, w)
         clause = "keep-empty" if empty_keep else ("kept-samples" if c["gen"] is None else "replaced-stretches")
         return Failure(dict(sig, clause=clause, list=mode, gen=c["gen"]),
@@ -704,7 +718,8 @@ def oracle_split(c, r):
         g = v["tgs"][name[:-4] + ".TextGrid"]["blanks"]
         length = float(e[1]) - float(e[0])
         exact = Fraction(e[1]) - Fraction(e[0])
-        span_ok = lambda lo, hi: lo == 0 and (hi == length or abs(Fraction(hi) - exact) <= abs(exact) / 2 ** 51)
+        # "exactly" up to the writer's documented snapping of numbers within 1e-14 (relative) of an integer
+        span_ok = lambda lo, hi: lo == 0 and (hi == length or abs(Fraction(hi) - exact) <= abs(exact) / 10 ** 14)
         if not span_ok(g["lo"], g["hi"]) or not all(span_ok(t["lo"], t["hi"]) for t in g["tiers"]):
             return Failure(dict(sig, clause="span"), f"{name}: cropped TextGrid spans [{g['lo']}, {g['hi']}] "
                            f"(tiers {[(t['lo'], t['hi']) for t in g['tiers']]}), interval length {length}")
@@ -1072,13 +1087,16 @@ def gen_split(rnd):
     rnd.shuffle(pool)
     words = [[a, b, pool[i] if distinct else rnd.choice(SAFE_LABELS[:5])] for i, (a, b) in enumerate(ivs)]
     # the other tiers: entries placed relative to the words (inside, straddling, outside) or nowhere
-    pts_pool = sorted({x for iv in ivs for x in iv} | {D / 2, D / 3})
+    wb = sorted({x for iv in ivs for x in iv})
+    pts_pool = sorted(set(wb) | {x for x in (D / 2, D / 3) if all(abs(x - y) > 1e-7 for y in wb)})
     phones = []
     if rnd.random() < 0.85:
         bounds = sorted(set(t for t in [pos_time(rnd, rnd.randint(0, n - 1), rate, rnd.choice(["on", "off"])) for _ in range(rnd.randint(2, 8))]
                             + [x for x in pts_pool if rnd.random() < 0.4] if 0 <= t <= D))
         sep = []
-        for b in bounds:                                  # no sliver gaps: save() would absorb them (C04's subject)
+        for b in bounds:                                  # no sliver gaps or overlaps: save() would absorb them (C04's subject)
+            near = [x for x in wb if abs(x - b) <= 1e-7]
+            b = near[0] if near else b                    # ... also not against the boundaries of the split tier
             if not sep or b - sep[-1] > 1e-7:
                 sep.append(b)
         bounds, i = sep, 0
